@@ -45,6 +45,8 @@ var c03Templates = []string{
 	// variables a render creates must not be visible to the next one
 	"{% assign leak = 'L' %}{% capture leak2 %}M{% endcapture %}{% for leak3 in a %}{% endfor %}",
 	"<{{ leak }}{{ leak2 }}{{ leak3 }}|{{ forloop.index }}|{{ i }}{{ q }}{{ c }}{{ only }}>",
+	// loops over a bound map and its nested values
+	"{% for kv in m %}{{ kv[0] }}={{ kv[1] }};{% endfor %}|{% for kv in m %}{% for kv2 in m %}{{ kv2[0] }}{% endfor %}{% endfor %}|{{ m | size }}{{ m.k }}{{ m.k2 }}",
 	// an include with a directory component, rendered twice by the same parsed template
 	`[{% include "` + c03SubIncName + `" %}]`,
 	// writing tags that sit only in clause bodies (else / when), the clause being taken
@@ -225,7 +227,7 @@ func firstDiff(a, b string) string {
 }
 
 func c03Families(tier string) []explore.Family {
-	nT, nB, depth := 25, 3, 2
+	nT, nB, depth := 26, 3, 2
 	if tier == "thorough" {
 		nT, nB, depth = len(c03Templates), 4, 3
 	}
@@ -270,6 +272,75 @@ func c03Families(tier string) []explore.Family {
 			}
 		}})
 	}
+	// the caller may UPDATE a bound value in place between two renders (same map object, same number of entries; same
+	// slice, same length): the second render shows the new contents - it equals a render of a freshly parsed
+	// template against a freshly built, equally updated environment. Nothing about an earlier render may be
+	// remembered by the parsed template under the identity of a binding.
+	mutate := func(b map[string]any) {
+		if m, ok := b["m"].(map[string]any); ok {
+			if _, has := m["k"]; has {
+				delete(m, "k")
+				m["k2"] = "renamed"
+			}
+			if _, has := m["j"]; has {
+				m["j"] = []any{"new", "j"}
+			}
+		}
+		if a, ok := b["a"].([]any); ok && len(a) > 0 {
+			a[0] = "A0'"
+		}
+		if lm, ok := b["lm"].([]any); ok && len(lm) > 0 {
+			if e, ok := lm[0].(map[string]any); ok {
+				e["w"] = 9
+			}
+		}
+		if _, ok := b["x"].(string); ok {
+			b["x"] = "X'"
+		}
+		if ms, ok := b["ms"].(yaml.MapSlice); ok && len(ms) > 0 {
+			ms[0].Value = "ms'"
+		}
+		if st, ok := b["pst"].(*univ.Plain); ok {
+			st.A = 42
+		}
+		if ints, ok := b["ints"].([]int); ok && len(ints) > 0 {
+			ints[0] = 99
+		}
+	}
+	fams = append(fams, explore.Family{Name: "bindings-updated-in-place-between-renders", Count: int64(nT * nB), Run: func(i int64, r *explore.Rec) {
+		t, bi := int(i)/nB, int(i)%nB
+		eng := c03Engine()
+		tpl, err := eng.ParseString(c03Templates[t])
+		if err != nil {
+			panic(explore.BaselineFailure{Msg: "harness: " + err.Error()})
+		}
+		b := c03Envs(bi)
+		r.Eval()
+		r.Eval()
+		r.Eval()
+		r.Transition()
+		r.Trace()
+		render := func(tp *liquid.Template, env map[string]any) string {
+			var o Outcome
+			o.Panic = explore.Safe(func() {
+				out, e := tp.Render(env)
+				o.Out, o.Err = string(out), e
+			})
+			return o.Sig()
+		}
+		first := render(tpl, b)
+		mutate(b)
+		second := render(tpl, b)
+		fresh := c03Envs(bi)
+		mutate(fresh)
+		tpl2, _ := c03Engine().ParseString(c03Templates[t])
+		want := render(tpl2, fresh)
+		r.Class("in-place-update/" + second[:3])
+		if second != want {
+			r.Violation(fmt.Sprintf("I2:stale-after-in-place-update:t%d", t), map[string]any{"template": c03Templates[t], "environment": bi, "first_render": trunc80(first)}, trunc80(want), trunc80(second))
+		}
+	}})
+
 	// the []byte a render returned belongs to the caller: later renders (same template, other bindings; other
 	// templates) must not change it. Output sizes straddle typical buffer thresholds.
 	sizes := []int{0, 1, 63, 64, 65, 4095, 4096, 4097, 65535, 65536, 65537, 200000, 1 << 20}
@@ -333,7 +404,7 @@ func init() {
 	explore.Register(&explore.Prop{
 		ID:    "C03",
 		Level: "model_checking",
-		Rule: "explicit-state search over histories of renders R(t,b) on one shared world (one engine, templates parsed once, binding environments built once and shared by reference): all histories of length <=2 over 25 templates x 3 environments (quick) / <=3 over 35 x 4 (thorough), each replayed on a fresh world, plus 40-step round-robin histories from every starting operation; plus a family that keeps the []byte returned by a render of 0..2^20 bytes (13 sizes around 64, 4096, 65536) and re-reads it after later renders; " +
+		Rule: "explicit-state search over histories of renders R(t,b) on one shared world (one engine, templates parsed once, binding environments built once and shared by reference): all histories of length <=2 over 26 templates x 3 environments (quick) / <=3 over 36 x 4 (thorough), each replayed on a fresh world, plus 40-step round-robin histories from every starting operation; plus a family that keeps the []byte returned by a render of 0..2^20 bytes (13 sizes around 64, 4096, 65536) and re-reads it after later renders; " +
 			"templates cover assign of a bound name, capture, shadowing loops, cycle groups, nested loops with break, every array filter on bound arrays (incl. aliased sub-slices and spare capacity), include, a render failing half-way, tablerow, typed slices, structs, pointers, Drops, MapSlice, ranges; " +
 			"invariants after every step: deep snapshot of every environment unchanged (slices up to capacity, unexported fields, aliasing), result equals the solo result on a fresh engine/parse/bindings; structural changes of render trees / engine configuration are recorded (not alarms: the statement defines template immutability through re-render equality); state = canonical world snapshot after the history; transition = one render",
 		Assumptions: []string{
